@@ -447,6 +447,9 @@ func c08Run(c *core.Ctx, idx int) {
 		relation     string
 		base, added  []string
 		mustBeActive bool
+		// first rule and its twin (R1 only): candidates for the first lines
+		// of two different lists
+		pair [2]string
 	}
 	var scs []scenario
 	// R1: k rules with their twins.
@@ -466,7 +469,7 @@ func c08Run(c *core.Ctx, idx int) {
 			c.Event("extra_rules_present_more_than_once", 1)
 		}
 	}
-	scs = append(scs, scenario{relation: fmt.Sprintf("add-%d-rules-with-twins", len(xs)), base: base, added: added})
+	scs = append(scs, scenario{relation: fmt.Sprintf("add-%d-rules-with-twins", len(xs)), base: base, added: added, pair: [2]string{added[0], added[1]}})
 	// R2: y differs from x in one aspect; x$badfilter must not touch y.
 	for i := 0; i < 3; i++ {
 		x := xs[c.Rng.Intn(len(xs))]
@@ -512,8 +515,36 @@ func c08Run(c *core.Ctx, idx int) {
 			c.Event("cases_with_file_backed_lists", 1)
 		}
 	}
+	// One case in four keeps the first added rule and its twin in two
+	// different lists, each as the first line (same position, other list).
+	twoLists := c.Rng.Intn(4) == 0
 	for _, sc := range scs {
 		ext := c08Insert(c, sc.base, sc.added)
+		mkStorage := mkStorage
+		if twoLists && sc.pair[0] != "" && sc.pair[0] != sc.pair[1] {
+			one := mkStorage
+			x, tw := sc.pair[0], sc.pair[1]
+			mkStorage = func(lines []string) *filterlist.RuleStorage {
+				l1 := []string{x}
+				seenX, seenT := false, false
+				for _, l := range lines {
+					switch {
+					case l == x && !seenX:
+						seenX = true
+					case l == tw && !seenT:
+						seenT = true
+					default:
+						l1 = append(l1, l)
+					}
+				}
+				if !seenX || !seenT {
+					return one(lines)
+				}
+
+				return util.Storage(util.Lines(l1), util.Lines([]string{tw}))
+			}
+			c.Event("scenarios_with_rule_and_twin_as_first_lines_of_two_lists", 1)
+		}
 		c.NonTrivial(core.Hash64(append([]string{sc.relation}, ext...)...))
 		for _, q := range reqs {
 			req := q.Build()
